@@ -3,15 +3,17 @@
 usage: record_seeds_v.py [t ...]   (default: all of 1..10); several t are processed side by side."""
 import os, re, subprocess, sys, json, shutil
 from concurrent.futures import ThreadPoolExecutor
+WAVE = os.environ.get("WAVE", "V"); N = {"V": 8, "W": 9}[WAVE]
+SRC = {"V": "independent sub-agent (depth wave: effects that need a sequence of 4-5 operations over several blocks, an exact numeric coincidence, a second occurrence, or a two-party interleaving inside one block) given only two property texts and a scratch worktree", "W": "independent sub-agent (multi-token wave: the violation needs a pricing published in a second token, a particular or changing exchange rate, or a rate-feed outage at a particular moment; single-token behaviour unchanged) given only two property texts, a description of the TokenKeeper / module-service seams and a scratch worktree"}[WAVE]
 def one(t):
     res = []
     for var in "JK":
-        sid = f"V{t}-{var}"
+        sid = f"{WAVE}{t}-{var}"
         d = f"/verif/seeded/{sid}"
         if os.path.exists(f"{d}/meta.json"): continue
-        src = f"/tmp/seedout8-V{t}"
-        if not os.path.exists(f"{src}/{var}.patch.diff") and not os.path.exists(f"/tmp/wt8-V{t}/out/{var}.patch.diff"): continue
-        ver = json.loads(subprocess.run(["python3", "/verif/tools/verify_seed.py", f"V{t}", var], capture_output=True, text=True, errors="replace").stdout)
+        src = f"/tmp/seedout{N}-{WAVE}{t}"
+        if not os.path.exists(f"{src}/{var}.patch.diff") and not os.path.exists(f"/tmp/wt{N}-{WAVE}{t}/out/{var}.patch.diff"): continue
+        ver = json.loads(subprocess.run(["python3", "/verif/tools/verify_seed.py", f"{WAVE}{t}", var], capture_output=True, text=True, errors="replace").stdout)
         patch = f"{src}/{var}.patch.diff"
         notes = open(f"{src}/{var}.md").read()
         prop = re.search(r"PROPERTY:\s*(C\d\d)", notes).group(1)
@@ -23,7 +25,7 @@ def one(t):
         viol = [l for l in out.splitlines() if l.startswith("violation:")]
         runs = re.search(r"runs=(\d+).*wall=([\d.]+)s", out)
         rules = sorted({v.split()[1].rstrip(':').split(';')[0] for v in viol})
-        meta = {"id": sid, "property": prop, "source": "independent sub-agent (depth wave: effects that need a sequence of 4-5 operations over several blocks, an exact numeric coincidence, a second occurrence, or a two-party interleaving inside one block) given only two property texts and a scratch worktree",
+        meta = {"id": sid, "property": prop, "source": SRC,
             "files_changed": sorted(set(re.findall(r"^\+\+\+ b/(\S+)", open(patch).read(), re.M))),
             "needs_to_manifest": notes.strip()[:1500],
             "confirmed_in_scratch_worktree": {k: ver.get(k) for k in ("a_build", "b_existing_tests_pass_with_change", "c_demo_fails_with_change", "d_demo_passes_clean")},
@@ -36,6 +38,7 @@ def one(t):
         line = f"{sid} {prop} {'DETECTED' if viol else 'MISSED'} {rules} verified={ver.get('ok')}"
         print(line, flush=True); res.append(line)
     return res
+WAVE = os.environ.get("WAVE", "V")
 ts = [int(a) for a in sys.argv[1:]] or list(range(1, 11))
 with ThreadPoolExecutor(3) as ex:
     list(ex.map(one, ts))
